@@ -815,7 +815,9 @@ fn fork_scenario(rng: &mut StdRng, sc: usize, out: Box<dyn std::io::Write>, kv: 
         ep.leaf = b_tip;
         ep.server.tip = b_tip;
     }
-    sim.inbox.clear();
+    // (requests that were outstanding when the peers changed branch are answered late, from the new branch: a
+    //  request that is lost for good only ends with the time-out of its session, and the convergence rounds
+    //  take no time)
     let bans0 = env.bans;
     let rounds2 = sim.chain.blocks.len() / 2 + 10;
     for _ in 0..rounds2 {
